@@ -180,12 +180,12 @@ static std::string Hex(const unsigned char *p, size_t n) {
   return s;
 }
 // Exact-size heap copy: every out-of-bounds byte is visible to ASan.  A zero-size allocation is
-// one accessible byte under ASan, so the empty buffer is the one-past-the-end pointer of a 1-byte
-// allocation: the first byte past every view is always redzone.
+// one accessible byte under ASan, so the empty buffer is the one-past-the-end pointer of a 16-byte
+// allocation (16 keeps it aligned for MakeAligned…View): the first byte past every view is redzone.
 struct Heap {
   unsigned char *base; unsigned char *p; size_t n;
   explicit Heap(const std::vector<unsigned char> &v)
-      : base(new unsigned char[v.size() ? v.size() : 1]), p(v.size() ? base : base + 1), n(v.size()) {
+      : base(new unsigned char[v.size() ? v.size() : 16]), p(v.size() ? base : base + 16), n(v.size()) {
     if (n) memcpy(p, v.data(), n);
   }
   ~Heap() { delete[] base; }
